@@ -379,7 +379,7 @@ fn rand_units13(rng: &mut SplitMix64) -> [u16; 13] {
         for x in &mut u[k + 1..] {
             *x = 0xFFFF;
         }
-        // a name ending in U+FFFF right before the terminator is the F12 shape: keep it rare
+        // a name ending in U+FFFF right before the terminator is the former F12 shape
         if k > 0 && u[k - 1] == 0xFFFF && !rng.chance(1, 64) {
             u[k - 1] = 0x62;
         }
@@ -797,7 +797,7 @@ fn stream_witnesses(rng: &mut SplitMix64, img: &mut Img, out: &mut dyn Write) {
             vec![lfn_slot(0x42, chk, &[0x58; 13]), lfn_slot(0x55, chk, &[0x5A; 13]), lfn_slot(0x41, chk, &[0x61; 13]), sfn_slot(&name, 0x20), next];
         emit_both(out, img, &slots);
     }
-    // F12 (open, known finding): trailing U+FFFF
+    // former F12 (fixed in 712f847; oracle `C15 trailing-ffff-lost` fires if it returns): trailing U+FFFF
     {
         let name = *b"FFFF    TXT";
         let chk = sfn_chk(&name);
